@@ -119,6 +119,44 @@ func runC04(c *Ctx) {
 			}
 		}
 		c.Floor("R1.recover", nStore, 1, "store into Run's named result by the recover closure")
+		// ... and on EVERY path on which recover() returned non-nil
+		if rec != nil {
+			stores := map[ssa.Instruction]bool{}
+			for _, b := range clo.Blocks {
+				for _, ins := range b.Instrs {
+					if st, ok := ins.(*ssa.Store); ok {
+						if _, isFV := st.Addr.(*ssa.FreeVar); isFV {
+							if k, okK := errKindOf(st.Val); okK && k == m.Kinds["Panic"] {
+								stores[ins] = true
+							}
+						}
+					}
+				}
+			}
+			okAll := true
+			for _, b := range clo.Blocks {
+				if isNil, known := cf.KnownNil(b, rec); !(known && !isNil) || len(b.Instrs) == 0 {
+					continue
+				}
+				// entry blocks of the r != nil region: a predecessor does not know it yet
+				entry := false
+				for _, p := range b.Preds {
+					if n2, k2 := cf.KnownNil(p, rec); !(k2 && !n2) {
+						entry = true
+					}
+				}
+				if !entry {
+					continue
+				}
+				reach := ReachableAvoiding(b.Instrs[0], stores)
+				for _, r := range returnsOf(clo) {
+					if (b.Instrs[0] == ssa.Instruction(r) && !stores[r]) || reach(r) {
+						okAll = false
+					}
+				}
+			}
+			c.Check(okAll, "R1.recover", "Run$recover|every recovered panic becomes a Panic error", w.FnPos(clo), "from r != nil every path to the closure's end stores the Panic error", "some recovered panics (e.g. of an unexpected value type) leave the result untouched: the run reports success although a handler or signer panicked")
+		}
 	}
 	// no go statements in Run and handler method trees
 	roots := []*ssa.Function{run}
